@@ -191,6 +191,8 @@ func genC11(r *core.Run, i int) *c11Case {
 			}
 		}
 	}
+	// junk that happens to spell the three lines that legitimately start a race report is a report, not junk
+	c.T0 = gen.BinStr(gen.DefuseRaceStart(string(c.T0)))
 	total := len(c.T0) + len(c.T1) + 4000
 	switch i % 4 {
 	case 0:
